@@ -59,10 +59,29 @@ let with_faults (inject : bool) (b : bed) (run : nat option -> istate -> istate 
   let (st', o) = run None b.st in
   b.st <- st'; o
 
+(* round 8: the statement trees GENERATED from DataIndexes.h (Gen_Protocol, run by ProtoSem's interpreter) are executed next to
+   the hand model on every two-phase operation; the two must agree exactly (state and outcome) *)
+let gen_diff = ref ""
+let chk_gen what hand gen =
+  (match gen with
+   | Some (g, _) -> if g <> hand && !gen_diff = "" then gen_diff := what
+   | None -> if !gen_diff = "" then gen_diff := what ^ ":uninterpreted");
+  hand
+let add_raw_g o r c fl st raw = let h = add_raw o r c fl st raw in chk_gen "AddRaw" h (ProtoRun.gen_add_raw o r c fl st raw)
+let update_raw_g fu fm o r c fl st a bb = let h = update_raw fu fm o r c fl st a bb in chk_gen "UpdateRaw" h (ProtoRun.gen_update_raw fu fm o r c fl st a bb)
+let update_col_g fu fm o r c fl st raw col v =
+  let ((st', oc), ct') = update_col fu fm o r c fl st raw col v in
+  ignore (chk_gen "UpdateRawCol" (st', oc) (ProtoRun.gen_update_col fu fm o r c fl st raw col v)); ((st', oc), ct')
+let remove_raw_g fu fm r c fl st raw =
+  let h = remove_raw fu fm r c fl st raw in
+  (match ProtoRun.gen_remove_raw fu fm r c fl st raw with
+   | Some g -> if g <> h && !gen_diff = "" then gen_diff := "RemoveRaw"
+   | None -> if !gen_diff = "" then gen_diff := "RemoveRaw:uninterpreted"); h
+
 let run_op (b : bed) (text : string) : string =
   let ws = words text in
   let ct = ct_of b in
-  let mut s = Printf.sprintf "%s #%d" s (str_digest (dump b)) in
+  let mut s = Printf.sprintf "%s%s #%d" s (if !gen_diff = "" then "" else " !GEN-PROTOCOL-DIFFERS:" ^ !gen_diff) (str_digest (dump b)) in
   let ints l = L.map int_of_string l in
   match ws with
   | "NU" :: cols ->
@@ -79,25 +98,25 @@ let run_op (b : bed) (text : string) : string =
   | ["ADD"; f; i] ->
     let i = int_of_string i in
     if L.mem i b.live then mut "invalid" else begin
-      let o = with_faults (f <> "0") b (fun fl st -> add_raw ord reach ct fl st (z_of_int i)) in
+      let o = with_faults (f <> "0") b (fun fl st -> add_raw_g ord reach ct fl st (z_of_int i)) in
       (match o with Accepted -> b.live <- i :: b.live | _ -> ());
       mut (show_outcome o) end
   | ["REM"; f; i] ->
     let i = int_of_string i in
     if not (L.mem i b.live) then mut "invalid" else begin
       ignore f;
-      let (st', _) = remove_raw true true reach ct None b.st (z_of_int i) in
+      let (st', _) = remove_raw_g true true reach ct None b.st (z_of_int i) in
       b.st <- st'; b.live <- L.filter (fun x -> x <> i) b.live; mut "ok" end
   | ["UPD"; f; i; j] ->
     let i = int_of_string i and j = int_of_string j in
     if not (L.mem i b.live) || L.mem j b.live || i = j then mut "invalid" else begin
-      let o = with_faults (f <> "0") b (fun fl st -> update_raw true true ord reach ct fl st (z_of_int i) (z_of_int j)) in
+      let o = with_faults (f <> "0") b (fun fl st -> update_raw_g true true ord reach ct fl st (z_of_int i) (z_of_int j)) in
       (match o with Accepted -> b.live <- j :: L.filter (fun x -> x <> i) b.live | _ -> ());
       mut (show_outcome o) end
   | ["UPC"; f; i; c; v; t] ->
     let i = int_of_string i and c = int_of_string c and v = int_of_string v in
     if not (L.mem i b.live) then mut "invalid" else begin
-      let run fl st = let ((st', o), _) = update_col true true ord reach ct fl st (z_of_int i) (nat c) (z_of_int v) in (st', o) in
+      let run fl st = let ((st', o), _) = update_col_g true true ord reach ct fl st (z_of_int i) (nat c) (z_of_int v) in (st', o) in
       let o =
         if t <> "0" then begin
           (* the assigner throws: it is the step after all applicable Add steps *)
@@ -134,6 +153,7 @@ let run_op (b : bed) (text : string) : string =
   | _ -> "?"
 
 let run_case (line : string) : string =
+  gen_diff := "";
   match Stdlib.String.split_on_char '|' line with
   | _ :: ops ->
     let b = { st = empty_istate; content = Hashtbl.create 64; live = [] } in
